@@ -11,7 +11,6 @@ must agree after iota.
 """
 import functools
 import itertools
-import os
 
 import numpy as np
 
@@ -20,8 +19,6 @@ from common import fvec, fbits, fmat, unfvec, unfmat, ivec, univec
 import dinoutil
 
 TOL = 1e-10
-# the latitude-derivative theorems / composite model operations (revision f_C09) are present in this lean tree
-HAVE_LAT = os.path.exists(os.path.join(common.LEAN, 'DinoProofs', 'Lemmas', 'SHEquivLat.lean'))
 RULE = ('grids: (M, L, nlon, nlat) from a table with M 1..8, L = M..M+3, nlon >= 2M-1, three latitude '
         'spacings, longitude offset 0 / 0.3, radius None / 1 / 2.5 / 6.37e6; fast layout with '
         'base_shape_multiple None,1,2,3,4,8, stacked_fourier_transforms None/True/False, '
@@ -215,9 +212,8 @@ def run(ctx: common.Ctx):
   from dinosaur import fourier
 
   ctx.lean('DinoProofs.Properties.C09', 'C09.txt',
-           extra_files=['DinoProofs/Lemmas/SHEquiv.lean'] +
-           (['DinoProofs/Lemmas/SHEquivLat.lean'] if HAVE_LAT else []) +
-           ['DinoProofs/Lemmas/SH.lean', 'DinoProofs/Lemmas/Lin.lean',
+           extra_files=['DinoProofs/Lemmas/SHEquiv.lean', 'DinoProofs/Lemmas/SHEquivLat.lean',
+            'DinoProofs/Lemmas/SHFastBlock.lean', 'DinoProofs/Lemmas/SH.lean', 'DinoProofs/Lemmas/Lin.lean',
             'Dino/SHEquiv.lean', 'Dino/SHEquivDrv.lean', 'Dino/SH.lean', 'Dino/Fourier.lean',
             'Dino/Lin.lean'])
 
@@ -437,27 +433,48 @@ def correspondence(ctx, jax, jnp, sh, al, fourier, add):
         for op, fn in (('cos', 'cos_lat_d_dlat'), ('sec', 'sec_lat_d_dlat_cos2')):
           add(f'sh9 F dlat R {op} {M} {L} 0 0 {fmat(x)}', f'Grid.{fn}[real]', inp, outr[fn])
           add(f'sh9 F dlat F {op} {M} {L} {pair.pr} {pair.pc} {fmat(xf)}', f'Grid.{fn}[fast]', inp, outf[fn])
-        if HAVE_LAT:
-          # grad / div / curl (clip on and off), k_cross, integrate: both layouts against the model of that layout
-          rad = fbits(float(gr.radius))
-          inpv = dict(inp, y=y2.tolist())
-          for c in (1, 0):
-            add(f'sh9 F grad R {M} {L} 0 0 {rad} {c} {fmat(x)}', f'Grid.cos_lat_grad[real,clip={bool(c)}]', inp,
-                outr[f'grad{c}'], 'ten')
-            add(f'sh9 F grad F {M} {L} {pair.pr} {pair.pc} {rad} {c} {fmat(xf)}',
-                f'Grid.cos_lat_grad[fast,clip={bool(c)}]', inp, outf[f'grad{c}'], 'ten')
-            for opn, fn in (('div', 'div_cos_lat'), ('curl', 'curl_cos_lat')):
-              add(f'sh9 F {opn} R {M} {L} 0 0 {rad} {c} {fmat(x)} {fmat(y2)}', f'Grid.{fn}[real,clip={bool(c)}]', inpv,
-                  outr[f'{opn}{c}'])
-              add(f'sh9 F {opn} F {M} {L} {pair.pr} {pair.pc} {rad} {c} {fmat(xf)} {fmat(y2f)}',
-                  f'Grid.{fn}[fast,clip={bool(c)}]', inpv, outf[f'{opn}{c}'])
-          add(f'sh9 F kcross {fmat(x)} {fmat(y2)}', 'Grid.k_cross[real]', inpv, outr['kcross'], 'ten')
-          add(f'sh9 F kcross {fmat(xf)} {fmat(y2f)}', 'Grid.k_cross[fast]', inpv, outf['kcross'], 'ten')
-          mag = r2 * float(np.abs(np.asarray(br.w)).max()) * float(np.abs(z).sum())
-          add(f'sh9 F integrate {fbits(r2)} {fvec(br.w)} {fmat(z)}', 'Grid.integrate[real]', inz,
-              (outr['integrate'], mag), 'scalar')
-          add(f'sh9 F integrate {fbits(r2)} {fvec(bf.w)} {fmat(zp)}', 'Grid.integrate[fast]', inz,
-              (outf['integrate'], mag), 'scalar')
+        # grad / div / curl (clip on and off), k_cross, integrate: both layouts against the model of that layout
+        rad = fbits(float(gr.radius))
+        inpv = dict(inp, y=y2.tolist())
+        for c in (1, 0):
+          add(f'sh9 F grad R {M} {L} 0 0 {rad} {c} {fmat(x)}', f'Grid.cos_lat_grad[real,clip={bool(c)}]', inp,
+              outr[f'grad{c}'], 'ten')
+          add(f'sh9 F grad F {M} {L} {pair.pr} {pair.pc} {rad} {c} {fmat(xf)}',
+              f'Grid.cos_lat_grad[fast,clip={bool(c)}]', inp, outf[f'grad{c}'], 'ten')
+          for opn, fn in (('div', 'div_cos_lat'), ('curl', 'curl_cos_lat')):
+            add(f'sh9 F {opn} R {M} {L} 0 0 {rad} {c} {fmat(x)} {fmat(y2)}', f'Grid.{fn}[real,clip={bool(c)}]', inpv,
+                outr[f'{opn}{c}'])
+            add(f'sh9 F {opn} F {M} {L} {pair.pr} {pair.pc} {rad} {c} {fmat(xf)} {fmat(y2f)}',
+                f'Grid.{fn}[fast,clip={bool(c)}]', inpv, outf[f'{opn}{c}'])
+        add(f'sh9 F kcross {fmat(x)} {fmat(y2)}', 'Grid.k_cross[real]', inpv, outr['kcross'], 'ten')
+        add(f'sh9 F kcross {fmat(xf)} {fmat(y2f)}', 'Grid.k_cross[fast]', inpv, outf['kcross'], 'ten')
+        mag = r2 * float(np.abs(np.asarray(br.w)).max()) * float(np.abs(z).sum())
+        add(f'sh9 F integrate {fbits(r2)} {fvec(br.w)} {fmat(z)}', 'Grid.integrate[real]', inz,
+            (outr['integrate'], mag), 'scalar')
+        add(f'sh9 F integrate {fbits(r2)} {fvec(bf.w)} {fmat(zp)}', 'Grid.integrate[fast]', inz,
+            (outf['integrate'], mag), 'scalar')
+      # N-C09-b: the block-locality / EqOff theorems (fastCosLatGrad_block, fastDivCosLat_block, fastCurlCosLat_block,
+      # zeroImagDerivative_block, fastDD_block, ..._congr_eqOff) quantify over EVERY array of the fast shape, so the fast
+      # model operations are tied to the code also on arrays that are NOT iota-images: random values everywhere,
+      # including row 1, the padding rows and the padding columns
+      ju, jv = rng.standard_normal((pair.R, pair.Lw)), rng.standard_normal((pair.R, pair.Lw))
+      inj = dict(inp0, spectrum='junk-fast-array', x=ju.tolist(), y=jv.tolist())
+      ctx.case((pair.key(), 'junk-fast-array', ju.tobytes()), nontrivial=True,
+               sample=dict(inp0, spectrum='junk-fast-array'))
+      ctx.dist['corr:spectrum=junk-fast-array'] += 1
+      outj = {k: np.asarray(v) for k, v in
+              jf(jnp.asarray(ju), jnp.asarray(jv), jnp.asarray(pair.padn(np.zeros((N, J))))).items()}
+      radj = fbits(float(gr.radius))
+      add(f'sh9 F ddlon F {fmat(ju)}', 'real_basis_derivative_with_zero_imag[junk fast array]', inj, outj['d_dlon'])
+      for op, fn in (('cos', 'cos_lat_d_dlat'), ('sec', 'sec_lat_d_dlat_cos2')):
+        add(f'sh9 F dlat F {op} {M} {L} {pair.pr} {pair.pc} {fmat(ju)}', f'Grid.{fn}[fast, junk fast array]', inj,
+            outj[fn])
+      for c in (1, 0):
+        add(f'sh9 F grad F {M} {L} {pair.pr} {pair.pc} {radj} {c} {fmat(ju)}',
+            f'Grid.cos_lat_grad[fast,clip={bool(c)}, junk fast array]', inj, outj[f'grad{c}'], 'ten')
+        for opn, fn in (('div', 'div_cos_lat'), ('curl', 'curl_cos_lat')):
+          add(f'sh9 F {opn} F {M} {L} {pair.pr} {pair.pc} {radj} {c} {fmat(ju)} {fmat(jv)}',
+              f'Grid.{fn}[fast,clip={bool(c)}, junk fast array]', inj, outj[f'{opn}{c}'])
       add(f'sh9 F eig {fbits(r2)} {L} 0', 'Grid.laplacian_eigenvalues[real]', inp0, gr.laplacian_eigenvalues, 'vec')
       add(f'sh9 F eig {fbits(r2)} {L} {pair.pc}', 'Grid.laplacian_eigenvalues[fast]', inp0, gf.laplacian_eigenvalues,
           'vec')
@@ -552,7 +569,8 @@ def leak_probes(ctx, jnp, sh, pair, x, y, outf, inp, rng):
   """C09-1 on the real code: what the raw latitude derivatives of the fast layout leave in padding column L
   (theorems fastDD_iota_colL / fastDD_iota_padding_zero), that every following operation discards it
   (clip_fastDD_iota, laplacian_fastDD_iota, inverseLaplacian_fastDD_iota, fastSynth_fastDD_iota) and that it can
-  never reach a resolved coefficient through a further latitude derivative (fastDD_block)."""
+  never reach a resolved coefficient through a further latitude derivative (fastDD_block), nor through cos_lat_grad /
+  div_cos_lat / curl_cos_lat with either clip flag (N-C09-b: the ..._block and ..._congr_eqOff theorems)."""
   M, L, N, J = pair.dims
   gr, gf = pair.gr, pair.gf
   J_ = jnp.asarray
@@ -619,6 +637,40 @@ def leak_probes(ctx, jnp, sh, pair, x, y, outf, inp, rng):
     e = dinoutil.relerr(pair.uniota(np.asarray(ff_(J_(junk)))), np.asarray(rawr))
     ctx.expect(e <= TOL, f'grid.{name}:junk-in-padding',
                f'{name}: values in row 1 / padding of the input change the unpadded block (rel. {e:.3e})', inp)
+  # N-C09-b on the real code.  (1) two operators in a row with every combination of the clip flags: the output of an
+  # unclipped operator is not an iota-image (column L), yet the next operator must agree with the reference on the
+  # block, be zero in row 1 / the padding, and leave at most column L non-zero when it is itself unclipped
+  # (fastDivCosLat_fastCosLatGrad_iota, ..._iota_eqOff, eqOff_iota_padding_zero; curl o k_cross o grad instead of
+  # curl o grad, which is identically zero)
+  for c1 in (False, True):
+    g_r, g_f = gr.cos_lat_grad(J_(x), clip=c1), gf.cos_lat_grad(J_(xf), clip=c1)
+    for c2 in (False, True):
+      cmp_modal(ctx, pair, gf.div_cos_lat(g_f, clip=c2), gr.div_cos_lat(g_r, clip=c2),
+                f'grid.div_cos_lat[clip={c2}](cos_lat_grad[clip={c1}])', inp, leak=not c2)
+      cmp_modal(ctx, pair, gf.curl_cos_lat(gf.k_cross(g_f), clip=c2), gr.curl_cos_lat(gr.k_cross(g_r), clip=c2),
+                f'grid.curl_cos_lat[clip={c2}](k_cross(cos_lat_grad[clip={c1}]))', inp, leak=not c2)
+  # (2) block locality of grad / div / curl / d_dlon for arrays that are not iota-images: junk in row 1 and in ALL
+  # padding of both arguments does not reach the unpadded block (fastCosLatGrad_block, fastDivCosLat_block,
+  # fastCurlCosLat_block, zeroImagDerivative_block)
+  pm = pair.modal_padding_mask()
+  jx, jy = xf + pm * rng.standard_normal(xf.shape), yf + pm * rng.standard_normal(yf.shape)
+
+  def block(key, got, ref):
+    ctx.evaluations += 1
+    e = dinoutil.relerr(pair.uniota(np.asarray(got)), np.asarray(ref))
+    ctx.expect(e <= TOL, f'grid.{key}:junk-in-padding',
+               f'{key}: values in row 1 / padding of the input change the unpadded block (rel. {e:.3e})', inp)
+  block('d_dlon', gf.d_dlon(J_(jx)), gr.d_dlon(J_(x)))
+  for c in (False, True):
+    g_f, g_r = gf.cos_lat_grad(J_(jx), clip=c), gr.cos_lat_grad(J_(x), clip=c)
+    block(f'cos_lat_grad[clip={c}].lon', g_f[0], g_r[0])
+    block(f'cos_lat_grad[clip={c}].lat', g_f[1], g_r[1])
+    block(f'div_cos_lat[clip={c}]', gf.div_cos_lat((J_(jx), J_(jy)), clip=c), gr.div_cos_lat((J_(x), J_(y)), clip=c))
+    block(f'curl_cos_lat[clip={c}]', gf.curl_cos_lat((J_(jx), J_(jy)), clip=c),
+          gr.curl_cos_lat((J_(x), J_(y)), clip=c))
+    # and through a second unclipped operator
+    block(f'div_cos_lat[clip=False](cos_lat_grad[clip={c}])', gf.div_cos_lat(g_f, clip=False),
+          gr.div_cos_lat(g_r, clip=False))
 
 
 def probe_pair(ctx, jax, jnp, sh, pair, rng, batch=True, heavy=True):
